@@ -32,6 +32,12 @@ func c08Seeds(p *Prog, r *Report, t *Taint) map[*ssa.Function]lbl {
 			return
 		}
 		for _, pn := range params {
+			// "name#i": the parameter called name, or - when it has been renamed - the one at position i (receiver = 0)
+			pos := -1
+			if k := strings.Index(pn, "#"); k >= 0 {
+				fmt.Sscanf(pn[k+1:], "%d", &pos)
+				pn = pn[:k]
+			}
 			found := false
 			for i, sp := range f.Params {
 				if sp.Name() == pn || (pn == "<recv>" && i == 0 && f.Signature.Recv() != nil) {
@@ -39,46 +45,50 @@ func c08Seeds(p *Prog, r *Report, t *Taint) map[*ssa.Function]lbl {
 					found = true
 				}
 			}
+			if !found && pos >= 0 && pos < len(f.Params) {
+				seeds[f] |= paramBit(pos)
+				found = true
+			}
 			if !found {
 				r.Fatalf("unresolved anchor: parameter %s of %s", pn, fn)
 			}
 		}
 	}
 	// (i) from the API
-	add("sm2.SignHashed", "priv")
-	add("sm2.DerivePublic", "priv")
-	add("sm2.TestPrivateKey", "priv")
+	add("sm2.SignHashed", "priv#1")
+	add("sm2.DerivePublic", "priv#0")
+	add("sm2.TestPrivateKey", "priv#0")
 	t.srcReadFull["sm2.SignHashed"] = true
 	t.srcReadFull["sm2.GenerateKey"] = true
 	// (ii) the primitives by themselves
-	add("sm2/internal.ScalarBaseMult", "k")
-	add("sm2/internal.ScalarMult", "scalar")
-	add("sm2/internal/fiat.(*SM2Element).Invert", "x")
-	add("sm2/internal/fiat.(*SM2ScalarElement).Invert", "x")
-	add("sm2/internal/fiat.(*SM2Element).MultiSelect", "bits", "fallbackCond")
-	add("sm2/internal.(*SM2Point).MultiSelectXY", "bits")
-	add("sm2/internal.(*SM2Point).MultiSelectXYZ", "bits")
-	add("sm2/internal/fiat.(*SM2Element).Select", "cond", "a", "b")
-	add("sm2/internal/fiat.(*SM2ScalarElement).Select", "cond", "a", "b")
-	add("sm2/internal.(*SM2Point).Select", "cond", "p1", "p2")
-	add("utils.ConstantTimeCmp", "a", "b")
-	add("sm2/internal.(*SM2Point).Add", "p1", "p2")
-	add("sm2/internal.(*SM2Point).Double", "p")
-	add("sm2/internal.(*SM2Point).Negate", "p")
+	add("sm2/internal.ScalarBaseMult", "k#0")
+	add("sm2/internal.ScalarMult", "scalar#1")
+	add("sm2/internal/fiat.(*SM2Element).Invert", "x#1")
+	add("sm2/internal/fiat.(*SM2ScalarElement).Invert", "x#1")
+	add("sm2/internal/fiat.(*SM2Element).MultiSelect", "bits#3", "fallbackCond#5")
+	add("sm2/internal.(*SM2Point).MultiSelectXY", "bits#3")
+	add("sm2/internal.(*SM2Point).MultiSelectXYZ", "bits#3")
+	add("sm2/internal/fiat.(*SM2Element).Select", "cond#3", "a#1", "b#2")
+	add("sm2/internal/fiat.(*SM2ScalarElement).Select", "cond#3", "a#1", "b#2")
+	add("sm2/internal.(*SM2Point).Select", "cond#3", "p1#1", "p2#2")
+	add("utils.ConstantTimeCmp", "a#0", "b#1")
+	add("sm2/internal.(*SM2Point).Add", "p1#1", "p2#2")
+	add("sm2/internal.(*SM2Point).Double", "p#1")
+	add("sm2/internal.(*SM2Point).Negate", "p#1")
 	add("sm2/internal.(*SM2Point).Bytes", "<recv>")
 	add("sm2/internal.(*SM2Point).GetAffineX", "<recv>")
-	add("sm2/internal/fiat.(*SM2ScalarElement).SetBytes", "v")
-	add("sm2/internal/fiat.(*SM2Element).SetBytes", "v")
+	add("sm2/internal/fiat.(*SM2ScalarElement).SetBytes", "v#1")
+	add("sm2/internal/fiat.(*SM2Element).SetBytes", "v#1")
 	add("sm2/internal/fiat.(*SM2Element).Bytes", "<recv>")
 	add("sm2/internal/fiat.(*SM2ScalarElement).Bytes", "<recv>")
-	add("sm2/internal/fiat.(*SM2Element).Mul", "t1", "t2")
-	add("sm2/internal/fiat.(*SM2Element).Square", "t")
-	add("sm2/internal/fiat.(*SM2Element).Add", "t1", "t2")
-	add("sm2/internal/fiat.(*SM2Element).Sub", "t1", "t2")
-	add("sm2/internal/fiat.(*SM2Element).Opp", "t")
-	add("sm2/internal/fiat.(*SM2ScalarElement).Mul", "t1", "t2")
-	add("sm2/internal/fiat.(*SM2ScalarElement).Add", "t1", "t2")
-	add("sm2/internal/fiat.(*SM2ScalarElement).Sub", "t1", "t2")
+	add("sm2/internal/fiat.(*SM2Element).Mul", "t1#1", "t2#2")
+	add("sm2/internal/fiat.(*SM2Element).Square", "t#1")
+	add("sm2/internal/fiat.(*SM2Element).Add", "t1#1", "t2#2")
+	add("sm2/internal/fiat.(*SM2Element).Sub", "t1#1", "t2#2")
+	add("sm2/internal/fiat.(*SM2Element).Opp", "t#1")
+	add("sm2/internal/fiat.(*SM2ScalarElement).Mul", "t1#1", "t2#2")
+	add("sm2/internal/fiat.(*SM2ScalarElement).Add", "t1#1", "t2#2")
+	add("sm2/internal/fiat.(*SM2ScalarElement).Sub", "t1#1", "t2#2")
 	return seeds
 }
 
